@@ -252,7 +252,9 @@ func parseFieldType(appName []string, t *sysl.Type) interface{} {
 	case *sysl.Type_Primitive_:
 		return TypePrimitive{Primitive: t.Primitive.String()}
 	case *sysl.Type_Tuple_:
-		return TypeTuple{Tuple: t.Tuple}
+		// Only the kind: the protobuf message itself cannot be converted into an arr.ai value, and one such
+		// element made the whole transform input fail to build.
+		return TypeTuple{}
 	case *sysl.Type_TypeRef:
 		ref := t.TypeRef
 		if ref.Ref.Appname != nil {
